@@ -234,6 +234,7 @@ fn scenario_on(job: Job, n: usize, layout: Layout, cap: usize, batch: BatchMode,
         nontrivial: n > 0,
         unbounded: false,
         loop_body: false,
+        sometimes: vec![],
     }
 }
 
